@@ -252,7 +252,7 @@ class Gen:
 def compile_source(src, fname):
     filename = f"<c09-{next(_COUNTER)}-{fname}>"
     linecache.cache[filename] = (len(src), None, src.splitlines(True), filename)
-    ns = {}
+    ns = {"__name__": "c09_generated"}
     exec(compile(src, filename, "exec"), ns)
     return ns[fname]
 
@@ -401,7 +401,9 @@ def run_generated(spec, counters, linop):
 
     rng = rng_for(9, spec["case"])
     g = Gen(rng, linop_safe=linop).build()
-    fname = f"algo_{spec['case'] % 100000}"
+    # every generated programme is a function called `algorithm` in the same (pseudo-)module, as when a user edits
+    # and re-runs a definition: compilation must depend on the function object, not on its name
+    fname = "algorithm"
     src = g.source(fname)
     nb = int(rng.integers(1, 4))
     sizes = [int(rng.integers(1, 4)) for _ in range(nb)]
@@ -459,7 +461,7 @@ def run_generated(spec, counters, linop):
         from collections import defaultdict
 
         ap._find_delete_candidates = lambda *a, **k: defaultdict(set)
-        ap._parse_algorithm.cache_clear()
+        getattr(ap._parse_algorithm, "cache_clear", lambda: None)()
         series2, _ = compile_run()
         compare_all(series2, interp, names, nb, sizes, orders, rng, counters, "deletion disabled vs interpreter", repeats=False)
         counters["deletion_differentials"] += 1
@@ -467,7 +469,7 @@ def run_generated(spec, counters, linop):
         raise Violation(str(v) + f"\nprogramme:\n{src}")
     finally:
         ap._find_delete_candidates = orig
-        ap._parse_algorithm.cache_clear()
+        getattr(ap._parse_algorithm, "cache_clear", lambda: None)()
     if linop and nb >= 1:
         # differential 2: linear-operator mode on the last block
         ulo = np.zeros((nb, nb), bool)
